@@ -11,6 +11,7 @@ package main
 
 import (
 	"fmt"
+	"strconv"
 	"go/types"
 	"sort"
 	"strings"
@@ -341,4 +342,121 @@ func checkItemIdentity(c *Ctx, p *Prog, rule string) {
 	if sites < 2 {
 		c.Undecided(rule, "lr1 item identity", fmt.Sprintf("found %d uses of ItemSet.imap keyed by an item (expected the insert in AddItem and the test in Contain)", sites))
 	}
+}
+
+// R04.7: the key is an injective rendering of (production index, dot position, look-ahead): a constant
+// Sprintf format with the two integers as %d separated by something that is not a digit, and the
+// look-ahead as the last verb. Renderings of the body (the item's string) are ambiguous: a terminal can be
+// spelled like the dot.
+func checkItemKeyInjective(c *Ctx, p *Prog, rule string) {
+	ctor := p.Func(lr1ItemsPkg, "NewItem")
+	if ctor == nil {
+		c.Undecided(rule, "lr1 item key", "NewItem not found")
+		return
+	}
+	var keyVal ssa.Value
+	for _, b := range ctor.Blocks {
+		for _, in := range b.Instrs {
+			if st, ok := in.(*ssa.Store); ok {
+				if fa, ok := st.Addr.(*ssa.FieldAddr); ok && fieldVar(fa).Name() == "key" {
+					keyVal = st.Val
+				}
+			}
+		}
+	}
+	call, _ := keyVal.(*ssa.Call)
+	if call == nil || call.Call.StaticCallee() == nil || call.Call.StaticCallee().String() != "fmt.Sprintf" {
+		c.Undecided(rule, "lr1 item key", "the key of an item is not built by one fmt.Sprintf call in NewItem; the injectivity argument knows only that form", p.FnPos(ctor))
+		return
+	}
+	format, ok := call.Call.Args[0].(*ssa.Const)
+	if !ok {
+		c.Undecided(rule, "lr1 item key", "the format of the key is not a constant", p.FnPos(ctor))
+		return
+	}
+	f := constantString(format)
+	// arguments, in order
+	var args []string
+	if sl, ok := call.Call.Args[1].(*ssa.Slice); ok {
+		if al, ok := sl.X.(*ssa.Alloc); ok {
+			byIdx := map[int64]string{}
+			for _, b := range ctor.Blocks {
+				for _, in := range b.Instrs {
+					st, ok := in.(*ssa.Store)
+					if !ok {
+						continue
+					}
+					ia, ok := st.Addr.(*ssa.IndexAddr)
+					if !ok || ia.X != ssa.Value(al) {
+						continue
+					}
+					idx, _ := constIntOf(ia.Index)
+					v := st.Val
+					if mi, ok := v.(*ssa.MakeInterface); ok {
+						v = mi.X
+					}
+					if pa, ok := v.(*ssa.Parameter); ok {
+						byIdx[idx] = pa.Name()
+					} else {
+						byIdx[idx] = "?"
+					}
+				}
+			}
+			for i := int64(0); i < int64(len(byIdx)); i++ {
+				args = append(args, byIdx[i])
+			}
+		}
+	}
+	// verbs
+	var verbs []string
+	var seps []string
+	cur := ""
+	for i := 0; i < len(f); i++ {
+		if f[i] == '%' && i+1 < len(f) {
+			verbs = append(verbs, f[i:i+2])
+			seps = append(seps, cur)
+			cur = ""
+			i++
+			continue
+		}
+		cur += string(f[i])
+	}
+	ok2 := len(verbs) == 3 && len(args) == 3
+	detail := fmt.Sprintf("format %q with arguments %v", f, args)
+	if ok2 {
+		ints := 0
+		for i, a := range args {
+			switch a {
+			case "prodIdx", "pos":
+				if verbs[i] != "%d" {
+					ok2 = false
+				}
+				ints++
+				if i > 0 && (seps[i] == "" || strings.ContainsAny(seps[i], "0123456789-")) {
+					ok2 = false
+				}
+			case "followingSymbol":
+				if i != 2 || (verbs[i] != "%s" && verbs[i] != "%q") || seps[i] == "" || cur != "" {
+					ok2 = false
+				}
+			default:
+				ok2 = false
+			}
+		}
+		if ints != 2 {
+			ok2 = false
+		}
+	}
+	c.Ob(rule, "lr1 item key is an injective rendering of (production, dot, look-ahead)", ok2, detail+"; required: the two integers as %d with a non-digit between them, then a separator and the look-ahead as the last verb — a rendering of the body is ambiguous (S : a \"•\" ; has the items a •\"•\" and a \"•\"• with the same string)", p.FnPos(ctor))
+}
+
+func constantString(c *ssa.Const) string {
+	if c.Value == nil {
+		return ""
+	}
+	s := c.Value.ExactString()
+	if u, err := strconv.Unquote(s); err == nil {
+		return u
+	}
+	return s
 }
